@@ -443,6 +443,21 @@ def file_cases(ctx, out, per_scheme, n_lines):
             base = {"scheme": ann, "header": header, "columns": col, "lines": lines, "given": given}
             for mode in MODES:
                 cases.append(dict(base, route="list", mode=mode, final=True))
+            # a column-name line that deviates from the layout (non-strict reading reports it once and goes on): the data
+            # lines are still read under the scheme the reader works with, field i bound to the scheme's i-th name
+            names = col.split("\t")
+            dev = list(names)
+            how = rng.choice(["swap", "case", "drop-last", "extra"])
+            if how == "swap" and len(dev) >= 8:
+                a, b = 5, 6
+                dev[a], dev[b] = dev[b], dev[a]
+            elif how == "case":
+                dev[2] = dev[2].lower()
+            elif how == "drop-last":
+                dev = dev[:-1]
+            else:
+                dev = dev + ["Extra_Column"]
+            cases.append(dict(base, columns="\t".join(dev), route=rng.choice(["list", "handle", "path"]), mode=rng.choice(["Silent", "Lenient"]), final=True))
             for route in impl.READER_ROUTES[1:]:
                 cases.append(dict(base, route=route, mode=rng.choice(MODES), final=rng.random() < 0.8))
     specs = file_specs(ctx, cases)
